@@ -50,9 +50,10 @@ Lemma nth_error_lt : forall {A} (l : list A) n x, nth_error l n = Some x -> n < 
 Proof. intros A l n x Hn. apply nth_error_Some. congruence. Qed.
 
 (* ------------------------------------------------------------------ *)
-(* events of goroutines other than the event loop                      *)
+(* events that the C01 predicates ignore: those of goroutines other    *)
+(* than the event loop, and the hand-over to the dispatcher             *)
 
-Definition thread_ev (e : ev) : Prop := match e with EStart _ _ | EEnd _ _ => True | _ => False end.
+Definition thread_ev (e : ev) : Prop := match e with EStart _ _ | EEnd _ _ | EHand _ => True | _ => False end.
 
 Lemma thread_ev_starts : forall (f : nat * cmdid -> who) (l : list (nat * cmdid)),
   Forall thread_ev (map (fun jc => EStart (f jc) (snd jc)) l).
@@ -74,8 +75,8 @@ Fixpoint uf_state (held : option msg) (log : list ev) : option (option msg) :=
     | Some m' => if msg_eqb m m' && updatable m then uf_state None rest else None
     | None => None
     end
-  | EExit :: rest => uf_state None rest
-  | EView :: rest | EHand _ :: rest =>
+  | EExit :: rest | EFail :: rest => uf_state None rest
+  | EView :: rest =>
     match held with
     | Some m' => if negb (updatable m') then uf_state None rest else None
     | None => uf_state None rest
@@ -86,24 +87,22 @@ Fixpoint uf_state (held : option msg) (log : list ev) : option (option msg) :=
 Lemma uf_state_sound : forall log h h', uf_state h log = Some h' -> updates_follow h log = true.
 Proof.
   induction log as [|e log IH]; intros h h' Hw; simpl in *; auto.
-  destruct e as [w m | m c | | c | w c | w c | ]; destruct h as [m'|]; simpl in *;
+  destruct e as [w m | m c | | c | w c | w c | | w m | | ]; destruct h as [m'|]; simpl in *;
     try (eapply IH; eassumption); try discriminate.
   - destruct (negb (updatable m')); try discriminate; simpl; eapply IH; eassumption.
   - destruct (msg_eqb m m'); simpl in *; try discriminate.
     destruct (updatable m); simpl in *; try discriminate. eapply IH; eassumption.
-  - destruct (negb (updatable m')); try discriminate; simpl; eapply IH; eassumption.
   - destruct (negb (updatable m')); try discriminate; simpl; eapply IH; eassumption.
 Qed.
 
 Lemma uf_state_complete : forall log h, updates_follow h log = true -> exists h', uf_state h log = Some h'.
 Proof.
   induction log as [|e log IH]; intros h Hw; simpl in *; eauto.
-  destruct e as [w m | m c | | c | w c | w c | ]; destruct h as [m'|]; simpl in *;
+  destruct e as [w m | m c | | c | w c | w c | | w m | | ]; destruct h as [m'|]; simpl in *;
     try (apply IH; assumption); try discriminate.
   - destruct (negb (updatable m')); simpl in *; try discriminate; apply IH; assumption.
   - destruct (msg_eqb m m'); simpl in *; try discriminate.
     destruct (updatable m); simpl in *; try discriminate. apply IH; assumption.
-  - destruct (negb (updatable m')); simpl in *; try discriminate; apply IH; assumption.
   - destruct (negb (updatable m')); simpl in *; try discriminate; apply IH; assumption.
 Qed.
 
@@ -116,10 +115,9 @@ Lemma uf_state_app : forall l1 l2 h,
   uf_state h (l1 ++ l2) = match uf_state h l1 with Some h' => uf_state h' l2 | None => None end.
 Proof.
   induction l1 as [|e l1 IH]; intros l2 h; simpl; auto.
-  destruct e as [w m | m c | | c | w c | w c | ]; destruct h as [m'|]; simpl; auto.
+  destruct e as [w m | m c | | c | w c | w c | | w m | | ]; destruct h as [m'|]; simpl; auto.
   - destruct (negb (updatable m')); auto.
   - destruct (msg_eqb m m' && updatable m); auto.
-  - destruct (negb (updatable m')); auto.
   - destruct (negb (updatable m')); auto.
 Qed.
 
@@ -167,11 +165,20 @@ Qed.
 Definition is_update (e : ev) : bool := match e with EUpdate _ _ => true | _ => false end.
 Definition is_recv_upd (e : ev) : bool := match e with ERecv _ m => updatable m | _ => false end.
 
+(* the loop was left through a failing callback / an error on p.errs *)
+Definition is_fail (e : ev) : bool := match e with EFail => true | _ => false end.
+Definition n_fails (log : list ev) : nat := length (filter is_fail log).
+Definition is_cancel (e : ev) : bool := match e with ECancel => true | _ => false end.
+Definition has_cancel (log : list ev) : bool := existsb is_cancel log.
+
 Lemma n_updates_app : forall l1 l2, n_updates (l1 ++ l2) = n_updates l1 + n_updates l2.
 Proof. intros l1 l2; unfold n_updates. rewrite filter_app, app_length; auto. Qed.
 
 Lemma n_recv_app : forall l1 l2, n_received_updatable (l1 ++ l2) = n_received_updatable l1 + n_received_updatable l2.
 Proof. intros l1 l2; unfold n_received_updatable. rewrite filter_app, app_length; auto. Qed.
+
+Lemma n_fails_app : forall l1 l2, n_fails (l1 ++ l2) = n_fails l1 + n_fails l2.
+Proof. intros l1 l2; unfold n_fails. rewrite filter_app, app_length; auto. Qed.
 
 Lemma n_updates_thread : forall e, Forall thread_ev e -> n_updates e = 0.
 Proof.
@@ -185,6 +192,19 @@ Proof.
   unfold n_received_updatable in *; simpl. destruct x; simpl in Hx; try contradiction; auto.
 Qed.
 
+Lemma n_fails_thread : forall e, Forall thread_ev e -> n_fails e = 0.
+Proof.
+  induction e as [|x e IH]; intros Hf; auto. inversion Hf as [|x' e' Hx He]; subst.
+  unfold n_fails in *; simpl. destruct x; simpl in Hx; try contradiction; auto.
+Qed.
+
+Lemma n_fails_notin : forall l, ~ In EFail l -> n_fails l = 0.
+Proof.
+  induction l as [|x l IH]; intros Hn; auto.
+  unfold n_fails in *; simpl. destruct x; simpl; try (apply IH; intros Hin; apply Hn; right; exact Hin).
+  exfalso; apply Hn; left; reflexivity.
+Qed.
+
 Lemma recv_from_app : forall w l1 l2, recv_from w (l1 ++ l2) = recv_from w l1 ++ recv_from w l2.
 Proof. intros w l1 l2; unfold recv_from. apply flat_map_app. Qed.
 
@@ -192,6 +212,65 @@ Lemma recv_from_thread : forall w e, Forall thread_ev e -> recv_from w e = [].
 Proof.
   induction e as [|x e IH]; intros Hf; auto. inversion Hf as [|x' e' Hx He]; subst.
   unfold recv_from in *; simpl. rewrite IH by assumption. destruct x; simpl in Hx; try contradiction; auto.
+Qed.
+
+Lemma sent_from_app : forall w l1 l2, sent_from w (l1 ++ l2) = sent_from w l1 ++ sent_from w l2.
+Proof. intros w l1 l2; unfold sent_from. apply flat_map_app. Qed.
+
+Lemma sent_from_thread : forall w e, Forall thread_ev e -> sent_from w e = [].
+Proof.
+  induction e as [|x e IH]; intros Hf; auto. inversion Hf as [|x' e' Hx He]; subst.
+  unfold sent_from in *; simpl. rewrite IH by assumption. destruct x; simpl in Hx; try contradiction; auto.
+Qed.
+
+Lemma has_cancel_app : forall l1 l2, has_cancel (l1 ++ l2) = has_cancel l1 || has_cancel l2.
+Proof. intros l1 l2; unfold has_cancel. apply existsb_app. Qed.
+
+Lemma has_cancel_thread : forall e, Forall thread_ev e -> has_cancel e = false.
+Proof.
+  induction e as [|x e IH]; intros Hf; auto. inversion Hf as [|x' e' Hx He]; subst.
+  unfold has_cancel in *; simpl. rewrite IH by assumption. destruct x; simpl in Hx; try contradiction; auto.
+Qed.
+
+Lemma has_cancel_In : forall l, has_cancel l = true <-> In ECancel l.
+Proof.
+  intros l; unfold has_cancel; rewrite existsb_exists; split.
+  - intros (x & Hin & Hx). destruct x; simpl in Hx; try discriminate. exact Hin.
+  - intros Hin. exists ECancel; split; auto.
+Qed.
+
+Lemma has_cancel_notin : forall l, ~ In ECancel l -> has_cancel l = false.
+Proof.
+  intros l Hn. destruct (has_cancel l) eqn:Hc; auto. exfalso; apply Hn, has_cancel_In; exact Hc.
+Qed.
+
+(* no_drop_before_cancel over an extended log *)
+Lemma ndbc_app : forall l1 l2,
+  no_drop_before_cancel (l1 ++ l2) = no_drop_before_cancel l1 && (has_cancel l1 || no_drop_before_cancel l2).
+Proof.
+  induction l1 as [|x l1 IH]; intros l2; simpl.
+  - reflexivity.
+  - destruct x; simpl; auto.
+Qed.
+
+Lemma ndbc_snoc : forall l e,
+  no_drop_before_cancel (l ++ [e]) =
+  no_drop_before_cancel l && (has_cancel l || match e with EDrop _ _ => false | _ => true end).
+Proof. intros l e; rewrite ndbc_app. destruct e; reflexivity. Qed.
+
+Lemma ndbc_thread : forall e, Forall thread_ev e -> no_drop_before_cancel e = true.
+Proof.
+  induction e as [|x e IH]; intros Hf; auto. inversion Hf as [|x' e' Hx He]; subst.
+  destruct x; simpl in Hx; try contradiction; simpl; auto.
+Qed.
+
+(* before the cancellation nothing is dropped: what a sender got rid of is what the loop took *)
+Lemma sent_recv_eq : forall w l, no_drop_before_cancel l = true -> has_cancel l = false ->
+  sent_from w l = recv_from w l.
+Proof.
+  induction l as [|x l IH]; intros Hn Hc; auto.
+  unfold sent_from, recv_from, has_cancel in *; simpl in *.
+  destruct x; simpl in *; try discriminate; try (rewrite IH by assumption; reflexivity).
 Qed.
 
 (* ------------------------------------------------------------------ *)
@@ -239,14 +318,26 @@ Section C01.
       c_senders s' = c_senders s -> lstep s l s' e
   | LSdrop : forall m, l = LbProcess -> c_loop s = LGot m -> updatable m = false -> not_got (c_loop s') ->
       (e = [] \/ e = [EExit]) -> frame s s' -> c_senders s' = c_senders s -> lstep s l s' e
-  | LShand : l = LbHand -> not_got (c_loop s) -> not_got (c_loop s') ->
+  | LShand : l = LbHand -> not_got (c_loop s) -> c_loop s <> LExited -> not_got (c_loop s') ->
       (e = [] \/ exists c w, e = [EHand c; EStart w c]) -> frame s s' -> c_senders s' = c_senders s -> lstep s l s' e
   | LSview : l = LbView -> c_loop s = LView -> c_loop s' = LIdle -> e = [EView] ->
       frame s s' -> c_senders s' = c_senders s -> lstep s l s' e
   | LSexit : l = LbLoopExit -> not_got (c_loop s) -> c_loop s' = LExited -> e = [EExit] ->
       frame s s' -> c_senders s' = c_senders s -> lstep s l s' e
-  | LSother : c_loop s' = c_loop s -> Forall thread_ev e ->
+  | LSfail : l = LbLoopFail -> c_loop s <> LExited -> c_loop s' = LExited -> e = [EFail; EExit] ->
+      frame s s' -> c_senders s' = c_senders s -> lstep s l s' e
+  | LSgiveup : forall w m, l = LbGiveUp w -> c_ctx s = true -> offer M s w = Some m -> c_loop s' = c_loop s ->
+      e = [EDrop w m] -> frame s s' -> c_senders s' = c_senders (took M s w) -> lstep s l s' e
+  | LScancel : l = LbCancel -> c_ctx s = false -> c_ctx s' = true -> c_loop s' = c_loop s -> e = [ECancel] ->
+      frame s s' -> c_senders s' = c_senders s -> lstep s l s' e
+  | LSother : c_loop s' = c_loop s -> Forall thread_ev e -> c_ctx s' = c_ctx s ->
       frame s s' -> c_senders s' = c_senders s -> lstep s l s' e.
+
+  Ltac cases Hst :=
+    destruct Hst as [w m Hl Hp Ho Hp' He Hfr Hs | m Hl Hp Hu Hp' He Hm' Hu' Hs | m Hl Hp Hu Hp' He Hfr Hs
+                    | Hl Hp Hx Hp' He Hfr Hs | Hl Hp Hp' He Hfr Hs | Hl Hp Hp' He Hfr Hs
+                    | Hl Hx Hp' He Hfr Hs | w m Hl Hc Ho Hp' He Hfr Hs | Hl Hc Hc' Hp' He Hfr Hs
+                    | Hp' He Hc Hfr Hs].
 
   Lemma took_frame : forall s w,
     c_log (took M s w) = c_log s /\ c_model (took M s w) = c_model s /\
@@ -255,6 +346,13 @@ Section C01.
     intros s w; destruct w; unfold took;
       repeat match goal with |- context[match ?x with _ => _ end] => destruct x end;
       simpl; rewrite ?app_nil_r; auto.
+  Qed.
+
+  Lemma took_ctx : forall s w, c_ctx (took M s w) = c_ctx s.
+  Proof.
+    intros s w; destruct w; unfold took;
+      repeat match goal with |- context[match ?x with _ => _ end] => destruct x end;
+      simpl; auto.
   Qed.
 
   Lemma took_senders_other : forall s w, (forall i, w <> WSender i) -> c_senders (took M s w) = c_senders s.
@@ -279,12 +377,12 @@ Section C01.
 
   Ltac other_step :=
     eexists; split; [simpl; reflexivity |
-      apply LSother; [reflexivity | repeat constructor; simpl; auto | split; reflexivity | reflexivity]].
+      apply LSother; [reflexivity | repeat constructor; simpl; auto | reflexivity | split; reflexivity | reflexivity]].
 
   Lemma step_lstep : forall s l s', step M upd cres s l = Some s' ->
     exists e, c_log s' = c_log s ++ e /\ lstep s l s' e.
   Proof.
-    intros s l s' H; destruct l as [w | | | | j | k | k | k j | | | ]; unfold step in H.
+    intros s l s' H; destruct l as [w | | | | j | k | k | k j | | | | w | | | ]; unfold step in H.
     - (* LbRecv *)
       destruct (c_loop s) eqn:Hl; try discriminate.
       destruct (offer M s w) as [m|] eqn:Ho; try discriminate.
@@ -311,7 +409,7 @@ Section C01.
       brk H; inversion H; subst; clear H;
         (eexists; split; [simpl; rewrite <- ?app_assoc; simpl; reflexivity |
            apply LShand; simpl; unfold frame; auto;
-           try (match goal with Hl : c_loop s = _ |- _ => rewrite Hl; simpl; auto end); eauto]).
+           try (match goal with Hl : c_loop s = _ |- _ => rewrite Hl; simpl; auto; try discriminate end); eauto]).
     - (* LbView *)
       brk H; inversion H; subst; clear H.
       exists [EView]; split; [reflexivity|]. apply LSview; simpl; unfold frame; auto.
@@ -323,23 +421,52 @@ Section C01.
     - (* LbGrpFinish *) brk H; inversion H; subst; clear H; other_step.
     - (* LbCancel *)
       brk H; inversion H; subst; clear H.
-      exists []; split; [simpl; rewrite app_nil_r; reflexivity|].
-      apply LSother; [reflexivity | constructor | split; reflexivity | reflexivity].
+      exists [ECancel]; split; [reflexivity|].
+      apply LScancel; simpl; unfold frame; auto.
     - (* LbDispExit *)
       brk H; inversion H; subst; clear H.
       exists []; split; [simpl; rewrite app_nil_r; reflexivity|].
-      apply LSother; [reflexivity | constructor | split; reflexivity | reflexivity].
+      apply LSother; [reflexivity | constructor | simpl | split; reflexivity | reflexivity].
+      match goal with Hb : _ && _ = true |- _ => apply andb_prop in Hb; destruct Hb as (Hb & _); rewrite Hb; reflexivity end.
     - (* LbLoopExit *)
       brk H; inversion H; subst; clear H;
         (exists [EExit]; split; [reflexivity|]; apply LSexit; simpl; unfold frame; auto;
          match goal with Hl : c_loop s = _ |- _ => rewrite Hl; simpl; auto end).
+    - (* LbGiveUp *)
+      destruct (c_ctx s) eqn:Hc; try discriminate.
+      destruct (offer M s w) as [m|] eqn:Ho; try discriminate.
+      inversion H; subst; clear H.
+      destruct (took_frame s w) as (Hlog & Hm & Hu & Hlp).
+      exists [EDrop w m]; split; [simpl; rewrite Hlog; reflexivity|].
+      eapply LSgiveup; eauto; simpl; unfold frame; auto.
+    - (* LbHandInit *) brk H; inversion H; subst; clear H; other_step.
+    - (* LbIfwGiveUp *)
+      brk H; inversion H; subst; clear H.
+      exists []; split; [simpl; rewrite app_nil_r; reflexivity|].
+      apply LSother; [reflexivity | constructor | simpl; congruence | split; reflexivity | reflexivity].
+    - (* LbLoopFail *)
+      brk H; inversion H; subst; clear H;
+        (exists [EFail; EExit]; split; [reflexivity|]; apply LSfail; simpl; unfold frame; auto;
+         match goal with Hl : c_loop s = _ |- _ => rewrite Hl; discriminate end).
+  Qed.
+
+  (* only LbCancel changes the cancellation flag *)
+  Lemma step_ctx : forall s l s', step M upd cres s l = Some s' -> c_ctx s' = c_ctx s \/ l = LbCancel.
+  Proof.
+    intros s l s' H; destruct l as [w | | | | j | k | k | k j | | | | w | | | ]; unfold step in H;
+      try (right; reflexivity); left;
+      brk H; inversion H; subst; clear H; simpl; rewrite ?took_ctx; auto; try congruence.
+    match goal with Hb : _ && _ = true |- _ => apply andb_prop in Hb; destruct Hb as (Hb & _); rewrite Hb; reflexivity end.
   Qed.
 
   (* ---------------------------------------------------------------- *)
   (* 6. Update and View are called from the event loop's own steps      *)
   (* The callbacks are program counters of the single event-loop thread:
      an EUpdate can only be appended by LbProcess (from LGot), an EView
-     only by LbView (from LView); no other thread's label produces them.
+     only by LbView (from LView); no other thread's label produces them
+     (the new labels LbGiveUp, LbHandInit, LbIfwGiveUp, LbLoopFail and
+     LbCancel append EDrop / EHand EStart / nothing / EFail EExit /
+     ECancel).
      This is a statement about the MODEL's structure (one thread owns
      Update/View); it cannot exhibit a Go data race - the model has no
      shared memory that two goroutines could touch unsynchronised. *)
@@ -364,8 +491,7 @@ Section C01.
     exists e; split; auto.
     assert (Hth : forall x, Forall thread_ev e -> In x e -> thread_ev x)
       by (intros x Hf Hin; rewrite Forall_forall in Hf; auto).
-    destruct Hst as [w m Hl Hp Ho Hp' He Hfr Hs | m Hl Hp Hu Hp' He Hm' Hu' Hs | m Hl Hp Hu Hp' He Hfr Hs
-                    | Hl Hp Hp' He Hfr Hs | Hl Hp Hp' He Hfr Hs | Hl Hp Hp' He Hfr Hs | Hp' He Hfr Hs].
+    cases Hst.
     - subst e; split; [|split]; [noin | noin | intros _; exact Hfr].
     - subst e; split; [|split].
       + intros m1 c1 [Hin|[]]. inversion Hin; subst. repeat split; auto.
@@ -374,6 +500,9 @@ Section C01.
     - destruct He; subst e; (split; [|split]; [noin | noin | intros _; exact Hfr]).
     - destruct He as [He | (c & w & He)]; subst e; (split; [|split]; [noin | noin | intros _; exact Hfr]).
     - subst e; split; [|split]; [noin | intros _; auto | intros _; exact Hfr].
+    - subst e; split; [|split]; [noin | noin | intros _; exact Hfr].
+    - subst e; split; [|split]; [noin | noin | intros _; exact Hfr].
+    - subst e; split; [|split]; [noin | noin | intros _; exact Hfr].
     - subst e; split; [|split]; [noin | noin | intros _; exact Hfr].
     - split; [|split]; [| | intros _; exact Hfr].
       + intros m c Hin. exfalso. apply (Hth _ He Hin).
@@ -399,19 +528,37 @@ Section C01.
   Definition inflight (p : looppc) : nat :=
     match p with LGot m => if updatable m then 1 else 0 | _ => 0 end.
 
+  (* counting: every updatable receipt is an Update, or the message in flight, or the one message a failing
+     callback lost; the loop fails at most once, and is then exited *)
+  Definition cnt_inv (s : cstate M) : Prop :=
+    n_updates (c_log s) + inflight (c_loop s) <= n_received_updatable (c_log s) /\
+    n_received_updatable (c_log s) <= n_updates (c_log s) + inflight (c_loop s) + n_fails (c_log s) /\
+    n_fails (c_log s) <= 1 /\
+    (n_fails (c_log s) = 0 \/ c_loop s = LExited).
+
+  Definition snd_inv (s : cstate M) : Prop :=
+    (forall i, sent_from (WSender i) (c_log s) ++ nth i (c_senders s) [] = nth i scripts []) /\
+    length (c_senders s) = length scripts.
+
+  Definition ctx_inv (s : cstate M) : Prop :=
+    c_ctx s = has_cancel (c_log s) /\ no_drop_before_cancel (c_log s) = true.
+
   Record Inv (s : cstate M) : Prop := {
     inv_thr : threaded m0 (c_upds s) (c_model s);
     inv_pairs : upd_pairs (c_log s) = map pair_of (c_upds s);
     inv_uf : exists h, uf_state None (c_log s) = Some h /\ held_ok (c_loop s) h;
-    inv_cnt : n_received_updatable (c_log s) = n_updates (c_log s) + inflight (c_loop s);
-    inv_snd : forall i, recv_from (WSender i) (c_log s) ++ nth i (c_senders s) [] = nth i scripts [];
-    inv_len : length (c_senders s) = length scripts
+    inv_cnt : cnt_inv s;
+    inv_snd : snd_inv s;
+    inv_ctx : ctx_inv s
   }.
 
   Lemma Inv_init : Inv (init_state M m0 init_cmd scripts).
   Proof.
     constructor; simpl; auto.
-    exists None; split; simpl; auto.
+    - exists None; split; simpl; auto.
+    - unfold cnt_inv; simpl. repeat split; auto.
+    - unfold snd_inv; simpl; auto.
+    - unfold ctx_inv; simpl; auto.
   Qed.
 
   (* each component, preserved by a classified step *)
@@ -420,9 +567,7 @@ Section C01.
     threaded m0 (c_upds s) (c_model s) -> threaded m0 (c_upds s') (c_model s').
   Proof.
     intros s l s' e Hst Ht.
-    destruct Hst as [w m Hl Hp Ho Hp' He Hfr Hs | m Hl Hp Hu Hp' He Hm' Hu' Hs | m Hl Hp Hu Hp' He Hfr Hs
-                    | Hl Hp Hp' He Hfr Hs | Hl Hp Hp' He Hfr Hs | Hl Hp Hp' He Hfr Hs | Hp' He Hfr Hs];
-      try (destruct Hfr as (Hm1 & Hu1); rewrite Hm1, Hu1; exact Ht).
+    cases Hst; try (destruct Hfr as (Hm1 & Hu1); rewrite Hm1, Hu1; exact Ht).
     rewrite Hm', Hu'. apply threaded_snoc; assumption.
   Qed.
 
@@ -430,13 +575,14 @@ Section C01.
     upd_pairs (c_log s) = map pair_of (c_upds s) -> upd_pairs (c_log s') = map pair_of (c_upds s').
   Proof.
     intros s l s' e Hst Hlog Hp0. rewrite Hlog. unfold upd_pairs in *. rewrite flat_map_app, Hp0.
-    destruct Hst as [w m Hl Hp Ho Hp' He Hfr Hs | m Hl Hp Hu Hp' He Hm' Hu' Hs | m Hl Hp Hu Hp' He Hfr Hs
-                    | Hl Hp Hp' He Hfr Hs | Hl Hp Hp' He Hfr Hs | Hl Hp Hp' He Hfr Hs | Hp' He Hfr Hs];
-      try (destruct Hfr as (Hm1 & Hu1); rewrite Hu1).
+    cases Hst; try (destruct Hfr as (Hm1 & Hu1); rewrite Hu1).
     - subst e; simpl; apply app_nil_r.
     - subst e; rewrite Hu', map_app; simpl. reflexivity.
     - destruct He; subst e; simpl; apply app_nil_r.
     - destruct He as [He | (c & w & He)]; subst e; simpl; apply app_nil_r.
+    - subst e; simpl; apply app_nil_r.
+    - subst e; simpl; apply app_nil_r.
+    - subst e; simpl; apply app_nil_r.
     - subst e; simpl; apply app_nil_r.
     - subst e; simpl; apply app_nil_r.
     - fold (upd_pairs e). rewrite (upd_pairs_thread e He). apply app_nil_r.
@@ -455,8 +601,7 @@ Section C01.
     (exists h, uf_state None (c_log s') = Some h /\ held_ok (c_loop s') h).
   Proof.
     intros s l s' e Hst Hlog (h & Hw & Hh). rewrite Hlog, uf_state_app, Hw.
-    destruct Hst as [w m Hl Hp Ho Hp' He Hfr Hs | m Hl Hp Hu Hp' He Hm' Hu' Hs | m Hl Hp Hu Hp' He Hfr Hs
-                    | Hl Hp Hp' He Hfr Hs | Hl Hp Hp' He Hfr Hs | Hl Hp Hp' He Hfr Hs | Hp' He Hfr Hs].
+    cases Hst.
     - (* recv *)
       subst e. rewrite Hp in Hh; simpl in Hh. rewrite Hp'. exists (Some m); simpl.
       destruct h as [m'|]; [rewrite Hh|]; simpl; auto.
@@ -470,14 +615,19 @@ Section C01.
       + exists None; split; auto. apply held_not_got; simpl; auto.
     - (* hand-over *)
       pose proof (not_got_held _ _ Hp Hh) as Hh'.
-      destruct He as [He | (c & w & He)]; subst e; simpl.
-      + exists h; split; auto. apply held_not_got; auto.
-      + exists None. destruct h as [m'|]; [rewrite Hh'|]; simpl; split; auto; apply held_not_got; simpl; auto.
+      destruct He as [He | (c & w & He)]; subst e; simpl;
+        (exists h; split; auto; apply held_not_got; auto).
     - (* view *)
       subst e. rewrite Hp in Hh; simpl in Hh. rewrite Hp'. exists None; simpl.
       destruct h as [m'|]; [rewrite Hh|]; simpl; auto.
     - (* loop exit *)
       subst e. rewrite Hp'. exists None; simpl; auto.
+    - (* loop failure: the held message, if any, is lost *)
+      subst e. rewrite Hp'. exists None; simpl; auto.
+    - (* a Send gives up *)
+      subst e. rewrite Hp'. exists h; simpl; auto.
+    - (* cancellation *)
+      subst e. rewrite Hp'. exists h; simpl; auto.
     - (* other goroutines *)
       rewrite (uf_state_thread e h He). rewrite Hp'. exists h; auto.
   Qed.
@@ -485,74 +635,144 @@ Section C01.
   Lemma inflight_not_got : forall p, not_got p -> inflight p = 0.
   Proof. intros p Hn; destruct p; simpl in *; try contradiction; auto. Qed.
 
-  Lemma cnt_pres : forall s l s' e, lstep s l s' e -> c_log s' = c_log s ++ e ->
-    n_received_updatable (c_log s) = n_updates (c_log s) + inflight (c_loop s) ->
-    n_received_updatable (c_log s') = n_updates (c_log s') + inflight (c_loop s').
+  Lemma cnt_pres : forall s l s' e, lstep s l s' e -> c_log s' = c_log s ++ e -> cnt_inv s -> cnt_inv s'.
   Proof.
-    intros s l s' e Hst Hlog Hc. rewrite Hlog, n_recv_app, n_updates_app, Hc.
-    destruct Hst as [w m Hl Hp Ho Hp' He Hfr Hs | m Hl Hp Hu Hp' He Hm' Hu' Hs | m Hl Hp Hu Hp' He Hfr Hs
-                    | Hl Hp Hp' He Hfr Hs | Hl Hp Hp' He Hfr Hs | Hl Hp Hp' He Hfr Hs | Hp' He Hfr Hs].
-    - subst e. rewrite Hp, Hp'. unfold n_received_updatable, n_updates; simpl.
-      destruct (updatable m); simpl; lia.
-    - subst e. rewrite Hp, Hp'. unfold n_received_updatable, n_updates; simpl. rewrite Hu. simpl; lia.
-    - rewrite Hp. rewrite (inflight_not_got _ Hp'). simpl. rewrite Hu.
-      destruct He; subst e; unfold n_received_updatable, n_updates; simpl; lia.
-    - rewrite (inflight_not_got _ Hp), (inflight_not_got _ Hp').
-      destruct He as [He | (c & w & He)]; subst e; unfold n_received_updatable, n_updates; simpl; lia.
-    - subst e. rewrite Hp, Hp'. unfold n_received_updatable, n_updates; simpl; lia.
-    - subst e. rewrite (inflight_not_got _ Hp), Hp'. unfold n_received_updatable, n_updates; simpl; lia.
-    - rewrite (n_recv_thread e He), (n_updates_thread e He). rewrite Hp'. lia.
+    intros s l s' e Hst Hlog (H1 & H2 & H3 & H4). unfold cnt_inv.
+    rewrite Hlog, n_recv_app, n_updates_app, n_fails_app.
+    cases Hst.
+    - (* recv *)
+      subst e. rewrite Hp in *. rewrite Hp'. destruct H4 as [H4|H4]; [|discriminate H4].
+      unfold n_received_updatable, n_updates, n_fails in *; simpl in *.
+      destruct (updatable m); simpl; repeat split; try lia; left; lia.
+    - (* update *)
+      subst e. rewrite Hp in *. rewrite Hp'. destruct H4 as [H4|H4]; [|discriminate H4].
+      unfold n_received_updatable, n_updates, n_fails in *; simpl in *. rewrite Hu in *.
+      simpl; repeat split; try lia; left; lia.
+    - (* a message that does not reach Update *)
+      rewrite Hp in *. rewrite (inflight_not_got _ Hp'). destruct H4 as [H4|H4]; [|discriminate H4].
+      simpl in *. rewrite Hu in *.
+      destruct He; subst e; unfold n_received_updatable, n_updates, n_fails in *; simpl in *;
+        repeat split; try lia; left; lia.
+    - (* hand-over *)
+      rewrite (inflight_not_got _ Hp) in *. rewrite (inflight_not_got _ Hp').
+      destruct H4 as [H4|H4]; [|contradiction].
+      destruct He as [He | (c & w & He)]; subst e; unfold n_received_updatable, n_updates, n_fails in *; simpl in *;
+        repeat split; try lia; left; lia.
+    - (* view *)
+      subst e. rewrite Hp in *. rewrite Hp'. destruct H4 as [H4|H4]; [|discriminate H4].
+      unfold n_received_updatable, n_updates, n_fails in *; simpl in *.
+      repeat split; try lia; left; lia.
+    - (* loop exit *)
+      subst e. rewrite (inflight_not_got _ Hp) in *. rewrite Hp'.
+      unfold n_received_updatable, n_updates, n_fails in *; simpl in *.
+      repeat split; try lia; right; reflexivity.
+    - (* loop failure *)
+      subst e. rewrite Hp'. destruct H4 as [H4|H4]; [|contradiction].
+      assert (Hi : inflight (c_loop s) <= 1) by (destruct (c_loop s) as [|x| | | |]; simpl; try lia; destruct (updatable x); lia).
+      unfold n_received_updatable, n_updates, n_fails in *; simpl in *.
+      repeat split; try lia; right; reflexivity.
+    - (* a Send gives up *)
+      subst e. rewrite Hp'.
+      unfold n_received_updatable, n_updates, n_fails in *; simpl in *.
+      repeat split; try lia. destruct H4 as [H4|H4]; [left; lia | right; exact H4].
+    - (* cancellation *)
+      subst e. rewrite Hp'.
+      unfold n_received_updatable, n_updates, n_fails in *; simpl in *.
+      repeat split; try lia. destruct H4 as [H4|H4]; [left; lia | right; exact H4].
+    - (* other goroutines *)
+      rewrite (n_recv_thread e He), (n_updates_thread e He), (n_fails_thread e He). rewrite Hp'.
+      repeat split; try lia. destruct H4 as [H4|H4]; [left; lia | right; exact H4].
   Qed.
 
   Lemma who_eqb_sender : forall i j, who_eqb (WSender i) (WSender j) = Nat.eqb i j.
   Proof. reflexivity. Qed.
 
-  Lemma snd_pres : forall s l s' e, lstep s l s' e -> c_log s' = c_log s ++ e ->
-    (forall i, recv_from (WSender i) (c_log s) ++ nth i (c_senders s) [] = nth i scripts []) ->
-    (forall i, recv_from (WSender i) (c_log s') ++ nth i (c_senders s') [] = nth i scripts []) /\
-    length (c_senders s') = length (c_senders s).
+  (* a step that neither makes a scripted sender advance nor logs a receipt / drop of one *)
+  Lemma snd_quiet : forall s s' e, c_log s' = c_log s ++ e ->
+    (forall i, sent_from (WSender i) e = []) -> c_senders s' = c_senders s -> snd_inv s -> snd_inv s'.
   Proof.
-    intros s l s' e Hst Hlog Hi.
-    assert (Hframe : recv_from (WSender 0) e = [] -> (forall i, recv_from (WSender i) e = []) ->
-                     c_senders s' = c_senders s ->
-                     (forall i, recv_from (WSender i) (c_log s') ++ nth i (c_senders s') [] = nth i scripts []) /\
-                     length (c_senders s') = length (c_senders s)).
-    { intros _ Hnil Hs. rewrite Hs; split; auto. intros i. rewrite Hlog, recv_from_app, Hnil, app_nil_r. apply Hi. }
-    destruct Hst as [w m Hl Hp Ho Hp' He Hfr Hs | m Hl Hp Hu Hp' He Hm' Hu' Hs | m Hl Hp Hu Hp' He Hfr Hs
-                    | Hl Hp Hp' He Hfr Hs | Hl Hp Hp' He Hfr Hs | Hl Hp Hp' He Hfr Hs | Hp' He Hfr Hs];
-      try (apply Hframe; auto; subst e; reflexivity);
-      try (apply Hframe; auto; destruct He; subst e; reflexivity).
+    intros s s' e Hlog Hnil Hs (Hi & Hlen). unfold snd_inv. rewrite Hs; split; auto.
+    intros i. rewrite Hlog, sent_from_app, Hnil, app_nil_r. apply Hi.
+  Qed.
+
+  (* w's Send completes: taken by the loop, or given up *)
+  Lemma snd_took : forall s s' w m e, c_log s' = c_log s ++ e -> offer M s w = Some m ->
+    c_senders s' = c_senders (took M s w) ->
+    (forall i, sent_from (WSender i) e = if who_eqb (WSender i) w then [m] else []) ->
+    snd_inv s -> snd_inv s'.
+  Proof.
+    intros s s' w m e Hlog Ho Hs He HI.
+    destruct w as [j | j | k | k j];
+      try (apply snd_quiet with (s := s) (e := e);
+           [exact Hlog | intros i; rewrite He; reflexivity
+            | rewrite Hs; apply took_senders_other; intros i; discriminate | exact HI]).
+    destruct HI as (Hi & Hlen).
+    destruct (took_senders_sender _ _ _ Ho) as (rest & Hn & Hs2). unfold snd_inv. rewrite Hs, Hs2.
+    split; [|rewrite set_nth_length; exact Hlen].
+    intros i. rewrite Hlog, sent_from_app, He, who_eqb_sender.
+    destruct (Nat.eqb i j) eqn:Hij.
+    - apply Nat.eqb_eq in Hij; subst i.
+      rewrite nth_set_nth_eq by (eapply nth_error_lt; eassumption).
+      rewrite <- (Hi j). rewrite (nth_error_nth _ _ [] Hn). rewrite <- app_assoc. reflexivity.
+    - apply Nat.eqb_neq in Hij. rewrite nth_set_nth_neq by assumption. rewrite app_nil_r. apply Hi.
+  Qed.
+
+  Lemma snd_pres : forall s l s' e, lstep s l s' e -> c_log s' = c_log s ++ e -> snd_inv s -> snd_inv s'.
+  Proof.
+    intros s l s' e Hst Hlog HI.
+    cases Hst;
+      try (apply snd_quiet with (s := s) (e := e); auto; subst e; reflexivity);
+      try (apply snd_quiet with (s := s) (e := e); auto; destruct He; subst e; reflexivity).
     - (* recv *)
-      destruct w as [j | j | k | k j].
-      + destruct (took_senders_sender _ _ _ Ho) as (rest & Hn & Hs2). rewrite Hs, Hs2.
-        split; [|apply set_nth_length].
-        intros i. rewrite Hlog, recv_from_app. subst e. unfold recv_from at 2; simpl.
-        destruct (Nat.eqb i j) eqn:Hij.
-        * apply Nat.eqb_eq in Hij; subst i.
-          rewrite nth_set_nth_eq by (eapply nth_error_lt; eassumption).
-          rewrite <- (Hi j). rewrite (nth_error_nth _ _ [] Hn). rewrite <- app_assoc. reflexivity.
-        * apply Nat.eqb_neq in Hij. rewrite nth_set_nth_neq by assumption. simpl. rewrite app_nil_r. apply Hi.
-      + rewrite Hs, took_senders_other in * by (intros i; discriminate). apply Hframe; auto; subst e; reflexivity.
-      + rewrite Hs, took_senders_other in * by (intros i; discriminate). apply Hframe; auto; subst e; reflexivity.
-      + rewrite Hs, took_senders_other in * by (intros i; discriminate). apply Hframe; auto; subst e; reflexivity.
+      apply snd_took with (s := s) (w := w) (m := m) (e := e); auto.
+      intros i; subst e; unfold sent_from; simpl; apply app_nil_r.
     - (* hand-over *)
-      apply Hframe; auto; destruct He as [He | (c & w & He)]; subst e; reflexivity.
+      apply snd_quiet with (s := s) (e := e); auto; destruct He as [He | (c & w & He)]; subst e; reflexivity.
+    - (* a Send gives up *)
+      apply snd_took with (s := s) (w := w) (m := m) (e := e); auto.
+      intros i; subst e; unfold sent_from; simpl; apply app_nil_r.
     - (* other goroutines *)
-      apply Hframe; auto; intros; apply recv_from_thread; assumption.
+      apply snd_quiet with (s := s) (e := e); auto; intros; apply sent_from_thread; assumption.
+  Qed.
+
+  (* the cancellation flag is "ECancel is in the log"; a Send gives up only when it is set *)
+  Lemma ctx_pres : forall s l s' e, lstep s l s' e -> step M upd cres s l = Some s' ->
+    c_log s' = c_log s ++ e -> ctx_inv s -> ctx_inv s'.
+  Proof.
+    intros s l s' e Hst Hstep Hlog (Hc0 & Hn0). unfold ctx_inv.
+    rewrite Hlog, has_cancel_app, ndbc_app, Hn0, <- Hc0. simpl.
+    assert (Hquiet : has_cancel e = false -> no_drop_before_cancel e = true -> c_ctx s' = c_ctx s ->
+                     c_ctx s' = c_ctx s || has_cancel e /\ c_ctx s || no_drop_before_cancel e = true).
+    { intros Ha Hb Hc'. rewrite Ha, Hb, Hc', orb_false_r, orb_true_r. auto. }
+    assert (Hsame : l <> LbCancel -> c_ctx s' = c_ctx s).
+    { intros Hne. destruct (step_ctx _ _ _ Hstep) as [Hx|Hx]; [exact Hx | contradiction]. }
+    cases Hst;
+      try (apply Hquiet; [subst e; reflexivity | subst e; reflexivity | apply Hsame; rewrite Hl; discriminate]);
+      try (apply Hquiet; [destruct He; subst e; reflexivity | destruct He; subst e; reflexivity
+                          | apply Hsame; rewrite Hl; discriminate]).
+    - (* hand-over *)
+      apply Hquiet; [destruct He as [He | (c & w & He)]; subst e; reflexivity
+                    | destruct He as [He | (c & w & He)]; subst e; reflexivity
+                    | apply Hsame; rewrite Hl; discriminate].
+    - (* a Send gives up: only under a cancelled context *)
+      subst e. rewrite (Hsame ltac:(rewrite Hl; discriminate)), Hc. simpl. auto.
+    - (* cancellation *)
+      subst e. rewrite Hc', Hc. simpl. auto.
+    - (* other goroutines *)
+      apply Hquiet; [apply has_cancel_thread; assumption | apply ndbc_thread; assumption | exact Hc].
   Qed.
 
   Lemma Inv_step : forall s l s', Inv s -> step M upd cres s l = Some s' -> Inv s'.
   Proof.
     intros s l s' HI Hs. destruct (step_lstep _ _ _ Hs) as (e & Hlog & Hst).
     destruct HI as [H1 H2 H3 H4 H5 H6].
-    destruct (snd_pres _ _ _ _ Hst Hlog H5) as (H5' & H6').
     constructor.
     - eapply thr_pres; eassumption.
     - eapply pairs_pres; eassumption.
     - eapply uf_pres; eassumption.
     - eapply cnt_pres; eassumption.
-    - exact H5'.
-    - rewrite H6'; exact H6.
+    - eapply snd_pres; eassumption.
+    - eapply ctx_pres; eassumption.
   Qed.
 
   Lemma Inv_fold : forall sched s, Inv s -> Inv (fold_left (run1 M upd cres) sched s).
@@ -626,31 +846,87 @@ Section C01.
   Proof. intros sched s. apply (inv_uf _ (Inv_run sched)). Qed.
 
   (* 4 *)
-  Lemma lossless_general : forall sched, let s := final sched in
-    n_received_updatable (c_log s) =
-    n_updates (c_log s) + (match c_loop s with LGot m => if updatable m then 1 else 0 | _ => 0 end).
+  (* the tightest form: a received updatable message is an Update, or the one in flight, or the one lost by the
+     (at most one) failure of the loop, after which the loop is exited *)
+  Lemma lossless_bounds : forall sched, let s := final sched in
+    let inflight := match c_loop s with LGot m => if updatable m then 1 else 0 | _ => 0 end in
+    let fails := length (filter (fun e => match e with EFail => true | _ => false end) (c_log s)) in
+    n_updates (c_log s) + inflight <= n_received_updatable (c_log s) /\
+    n_received_updatable (c_log s) <= n_updates (c_log s) + inflight + fails /\
+    fails <= 1 /\
+    (fails = 0 \/ c_loop s = LExited).
   Proof. intros sched s. apply (inv_cnt _ (Inv_run sched)). Qed.
 
+  Lemma lossless_le : forall sched, let s := final sched in
+    n_updates (c_log s) <= n_received_updatable (c_log s) /\
+    n_received_updatable (c_log s) <= n_updates (c_log s) + 1.
+  Proof.
+    intros sched s. destruct (lossless_bounds sched) as (H1 & H2 & H3 & H4). fold s in H1, H2, H3, H4.
+    split; [lia|]. destruct H4 as [H4|H4].
+    - assert (Hi : match c_loop s with LGot m => if updatable m then 1 else 0 | _ => 0 end <= 1)
+        by (destruct (c_loop s) as [|x| | | |]; try lia; destruct (updatable x); lia).
+      lia.
+    - rewrite H4 in H2. lia.
+  Qed.
+
+  Lemma lossless_general : forall sched, let s := final sched in
+    ~ In EFail (c_log s) ->
+    n_received_updatable (c_log s) =
+    n_updates (c_log s) + (match c_loop s with LGot m => if updatable m then 1 else 0 | _ => 0 end).
+  Proof.
+    intros sched s Hn. destruct (lossless_bounds sched) as (H1 & H2 & _). fold s in H1, H2.
+    pose proof (n_fails_notin _ Hn) as Hf. unfold n_fails, is_fail in Hf. rewrite Hf in H2. lia.
+  Qed.
+
   Lemma lossless : forall sched, let s := final sched in
+    ~ In EFail (c_log s) ->
     match c_loop s with LGot _ => False | _ => True end ->
     n_updates (c_log s) = n_received_updatable (c_log s).
   Proof.
-    intros sched s Hn. pose proof (lossless_general sched) as Hc. fold s in Hc. simpl in Hc.
+    intros sched s Hf Hn. pose proof (lossless_general sched Hf) as Hc. fold s in Hc. simpl in Hc.
     destruct (c_loop s); try contradiction; lia.
   Qed.
 
   (* 5 *)
-  Lemma per_sender : forall sched, let s := final sched in
-    per_sender_ok scripts (c_senders s) (c_log s) = true /\ length (c_senders s) = length scripts.
+  (* the Prop form: got-rid-of-by-i (taken by the loop or dropped) ++ still-held-by-i = script i, for every i *)
+  Lemma per_sender_eq : forall sched i, let s := final sched in
+    sent_from (WSender i) (c_log s) ++ nth i (c_senders s) [] = nth i scripts [].
+  Proof. intros sched i s. apply (inv_snd _ (Inv_run sched)). Qed.
+
+  Lemma ctx_is_cancel : forall sched, let s := final sched in
+    c_ctx s = true <-> In ECancel (c_log s).
   Proof.
-    intros sched s. pose proof (Inv_run sched) as HI. fold s in HI. split; [|apply (inv_len _ HI)].
-    unfold per_sender_ok. apply forallb_forall. intros i _.
-    rewrite (inv_snd _ HI). apply list_eqb_refl. apply msg_eqb_refl.
+    intros sched s. destruct (inv_ctx _ (Inv_run sched)) as (Hc & _). fold s in Hc.
+    rewrite Hc. apply has_cancel_In.
   Qed.
 
-  (* the Prop form: received-from-i ++ still-held-by-i = script i, for every i *)
-  Lemma per_sender_eq : forall sched i, let s := final sched in
-    recv_from (WSender i) (c_log s) ++ nth i (c_senders s) [] = nth i scripts [].
-  Proof. intros sched i s. apply (inv_snd _ (Inv_run sched)). Qed.
+  Lemma per_sender : forall sched, let s := final sched in
+    per_sender_ok scripts (c_senders s) (c_log s) = true /\ length (c_senders s) = length scripts /\
+    no_drop_before_cancel (c_log s) = true.
+  Proof.
+    intros sched s. pose proof (Inv_run sched) as HI. fold s in HI.
+    split; [|split; [apply (inv_snd _ HI) | apply (inv_ctx _ HI)]].
+    unfold per_sender_ok. apply forallb_forall. intros i _.
+    rewrite (proj1 (inv_snd _ HI)). apply list_eqb_refl. apply msg_eqb_refl.
+  Qed.
+
+  (* until the context is cancelled nothing is dropped *)
+  Lemma per_sender_prefix_eq : forall sched, let s := final sched in
+    ~ In ECancel (c_log s) ->
+    forall i, recv_from (WSender i) (c_log s) ++ nth i (c_senders s) [] = nth i scripts [].
+  Proof.
+    intros sched s Hn i. pose proof (Inv_run sched) as HI. fold s in HI.
+    rewrite <- (sent_recv_eq (WSender i) (c_log s)).
+    - apply (proj1 (inv_snd _ HI)).
+    - apply (inv_ctx _ HI).
+    - apply has_cancel_notin; exact Hn.
+  Qed.
+
+  Lemma per_sender_prefix : forall sched, let s := final sched in
+    ~ In ECancel (c_log s) ->
+    forall i, list_eqb msg_eqb (recv_from (WSender i) (c_log s) ++ nth i (c_senders s) []) (nth i scripts []) = true.
+  Proof.
+    intros sched s Hn i. subst s. rewrite (per_sender_prefix_eq sched Hn i). apply list_eqb_refl. apply msg_eqb_refl.
+  Qed.
 
 End C01.
